@@ -22,7 +22,7 @@ Cur == Rec[IF k = 0 THEN 1 ELSE k]      \* total: k = 0 only before the first re
 (* consume event e of the current record with the matching Pipeline action *)
 Consume(e) ==
     CASE e = "frontend" -> Frontend(Cur.herr, IF Cur.entries > 3 THEN 3 ELSE Cur.entries)
-      [] e = "infer" -> Infer(Cur.terr, Cur.unsafe)
+      [] e = "infer" -> Infer(Cur.terr, Cur.texpr, Cur.unsafe)
       [] e = "diagnostics" -> Report
       [] e = "comptime" -> Comptime
       [] e = "no-entry" -> NoEntry
